@@ -164,6 +164,21 @@ def run(ctx):
         auth = mu.calls(b, r"DomainResourceFilter::authoritative$")
         flags = sorted(int(t["args"][0]["k"]["v"]) for bi, t in auth if t["args"][0]["o"] == "const")
         names_ok = len(gdr) == 2 and _arg_field(b, defs, gdr[0][1]["args"][1]) == "qname" and _arg_field(b, defs, gdr[1][1]["args"][1]) == "target"
+        # every item that passed the filter is pushed: the push lies on every path round the answer loop (no `continue`
+        # that drops a matching record, e.g. a de-duplication by type)
+        import loops as _loops
+        lps_b, _irr_b, dom_b = _loops.natural_loops(b)
+        pbi = ans[0][0]
+        inner = [(h, info) for h, info in lps_b.items() if pbi in info["body"]]
+        if inner:
+            h0, info0 = sorted(inner, key=lambda x: len(x[1]["body"]))[0]
+            skips = [u for u in info0["body"] if h0 in b.successors(u) and pbi not in dom_b[u]]
+            report.count()
+            if skips:
+                viol(report, "C13-R1", b, "dropped-answer", "an iteration of the answer loop can return to the loop head without pushing the record "
+                     "that passed the type / class filter (back edge from bb%s): a registered record matching the question is left out" % skips)
+            else:
+                report.nontriv("every filtered record pushed")
         if okp and len(f0) == 1 and names_ok and flags != [0, 1]:
             viol(report, "C13-R2" if flags == [1, 1] else "C13-R1", b, "subdomain-flags", "the two store lookups use DomainResourceFilter::authoritative(%s): "
                  "the answer lookup must include subdomains (true) and the additional-record lookup must be restricted to the SRV target "
